@@ -162,11 +162,22 @@ pub fn program(data: &[u8]) -> (Program, Vec<&'static str>) {
         }
     };
     // maps: literal construction (a literal evaluates all keys and values first, then inserts)
+    // one history in twelve builds its second map from a literal with 100-255 entries (numeric keys
+    // beyond the pool's, so that the pool keys still meet in it later)
+    let big_literal = rd.chance(1, 12);
+    let big_n = 100 + rd.below(156);
     for m in ["m0", "m1"] {
         let k = rd.below(5);
         let mut kvs = Vec::new();
         for _ in 0..k {
             kvs.push((pick_key(&mut rd), value_expr(&mut rd)));
+        }
+        if big_literal && m == "m1" {
+            // (a literal holds at most 255 entries, the pool keys in front included)
+            for i in 0..big_n.min(255 - kvs.len()) {
+                kvs.push((n(1000.0 + i as f64), n(i as f64)));
+            }
+            labels.push("big_literal");
         }
         counter += 1;
         let ev = format!("e{}", counter);
@@ -177,6 +188,13 @@ pub fn program(data: &[u8]) -> (Program, Vec<&'static str>) {
             None,
         )));
         labels.push("map_literal");
+        if big_literal && m == "m1" {
+            main.push(Stmt::print(Expr::invoke(Expr::var(m), "len", vec![])));
+            for i in [0usize, 1, big_n / 2, big_n - 1, big_n] {
+                main.push(Stmt::print(Expr::invoke(Expr::var(m), "get", vec![n(1000.0 + i as f64)])));
+                main.push(Stmt::print(Expr::invoke(Expr::var(m), "has_key", vec![n(1000.0 + i as f64)])));
+            }
+        }
     }
     let ops = 4 + rd.below(56);
     let mut removed = false;
